@@ -330,7 +330,8 @@ fn merge(a: RN, b: RN) -> Option<RN> {
                 return None;
             }
             for v in y {
-                if !x.iter().any(|w| same(w, &v)) {
+                // keep alternatives that differ only in the sign of zero: the sign matters further up
+                if !x.iter().any(|w| same_bits(w, &v)) {
                     x.push(v);
                 }
             }
@@ -341,6 +342,14 @@ fn merge(a: RN, b: RN) -> Option<RN> {
         (RN::W(x), RN::W(y)) if x == y => Some(RN::W(x)),
         (RN::OkAny, RN::OkAny) => Some(RN::OkAny),
         _ => None,
+    }
+}
+
+fn same_bits(a: &NV, b: &NV) -> bool {
+    match (a, b) {
+        (NV::I(x), NV::I(y)) => x == y,
+        (NV::F(x), NV::F(y)) => (x.is_nan() && y.is_nan()) || x.to_bits() == y.to_bits(),
+        _ => false,
     }
 }
 
